@@ -6,5 +6,5 @@ Extraction "xc19.ml" get_location get_location_r len_of total normalise extract_
   point_of_loc d2_pt_seg qd2 q_of_z wfb clamp_index
   merge_units_ok merge_nodes_ok merge_pts_ok merge_check
   node_disjoint_ok node_kernel_agrees node_in_on_out node_out_near_in node_cover_in node_cover_out noding_check
-  polyg_valid_ok polyg_sides_ok polyg_edges_in polyg_account_ok polyg_dangles_ok polyg_cuts_ok polygonize_check
+  polyg_valid_ok polyg_sides_ok polyg_edges_in polyg_account_ok polyg_dangles_ok polyg_cuts_ok polyg_disjoint_ok polygonize_check
   dangles_spec cuts_spec useg shared_check shared_spec units_undir all_segs all_pts.
